@@ -486,6 +486,7 @@ def havoc_for_loop(ex, body, st: St, extra_modifies=()):
             refs.append(v)
         else:
             havoc_all = True
+    refs = [v for v in refs if isinstance(v, Val)]
     for v in list(extra_modifies):
         refs.append(v)
     # calls to contracted callees that declare `modifies`: havoc what they may write (precisely when the target
@@ -502,6 +503,28 @@ def havoc_for_loop(ex, body, st: St, extra_modifies=()):
             if not cands:
                 continue
             for key, c in cands:
+                qual = key.split(":")[1]
+                if isinstance(x.func, ast.Attribute) and "." in qual:
+                    # a method contract applies only when the receiver is an instance of that class
+                    kcls = qual.split(".")[0]
+                    try:
+                        free = {y.id for y in ast.walk(x.func.value) if isinstance(y, ast.Name)}
+                        if free & body_assigned:
+                            raise Unsupported("loop-variant receiver")
+                        ex.pure_depth += 1
+                        try:
+                            rv = ex.ev1(x.func.value, st.fork())
+                        finally:
+                            ex.pure_depth -= 1
+                        if not (isinstance(rv, Val) and strip_opt(rv.ty)[0] == "obj" and REG.issub(strip_opt(rv.ty)[1], kcls)):
+                            continue
+                    except Unsupported:
+                        if cname in _MUTATORS or cname in ("get", "items", "keys", "values", "copy"):
+                            continue  # container method of the same name (already covered by the syntactic scan)
+                        havoc_all = True
+                        continue
+                elif isinstance(x.func, ast.Attribute) or "." in qual:
+                    continue
                 try:
                     fa = ex.project.function_ast(key)
                     pnames = [a.arg for a in fa.args.posonlyargs + fa.args.args]
@@ -531,7 +554,11 @@ def havoc_for_loop(ex, body, st: St, extra_modifies=()):
                         sub.env = dict(env2)
                         ex.pure_depth += 1
                         try:
-                            refs.append(ex.ev1(ast.parse(m, mode="eval").body, sub))
+                            mv = ex.ev1(ast.parse(m, mode="eval").body, sub)
+                            if isinstance(mv, Val):
+                                refs.append(mv)
+                            else:
+                                havoc_all = True
                         finally:
                             ex.pure_depth -= 1
                 except (Unsupported, KeyError):
